@@ -205,6 +205,7 @@ func (x *exec) step(st *State, in ssa.Instruction) {
 		x.slice(st, ins)
 	case *ssa.Send:
 		x.ctx.note("channel send in " + CanonKey(fr.fn) + " at " + x.posStr(ins.Pos()) + " modelled as no-op (T-go)")
+		x.ghostAtChan(st, ins, nil, nil)
 	default:
 		panic(unsupported(fmt.Sprintf("instruction %T: %s", in, in)))
 	}
@@ -254,6 +255,7 @@ func (x *exec) unop(st *State, ins *ssa.UnOp) {
 		} else {
 			fr.env[ins] = val
 		}
+		x.ghostAtChan(st, ins, nil, nil)
 	case token.XOR:
 		t := v.(Term)
 		// ^x = -x-1 (signed), 2^n-1-x (unsigned)
@@ -986,4 +988,9 @@ func (x *exec) doSelect(st *State, ins *ssa.Select) {
 		}
 	}
 	fr.env[ins] = tv
+	var recvVals []Val
+	if len(tv) > 2 {
+		recvVals = tv[2:]
+	}
+	x.ghostAtChan(st, ins, &idx, recvVals)
 }
